@@ -92,19 +92,19 @@ PROPS = {
         "assumptions": [],
     },
     "C15": {
-        "claim": "Decides the structural clauses HX1–HX5: each of the eight Index/IndexMut impls guards its inline-array access by exactly the comparison the byte slice's own bound check makes (bounds table), with the other edge panicking; eq/print/to_vec/byte_at/tail/to_i64/to_f64/to_utf8/is_empty/to_bool/Debug/Display never look at the representation, only at bytes()/len()/print(); bytes() is the array cut to exactly the length field and len() the stored length; numeric conversions use the big-endian pair through a whole-bytes [u8; 8] conversion with the error propagated; from_slice picks the inline form only if len ≤ 8 (a lower threshold is a pure representation choice), copies exactly slice.len() bytes and records slice.len(). Does not decide from_str(print(h)) == h (value round trip through the hex crate). HX6: Display and Debug of Hex write exactly print().",
+        "claim": "Decides the structural clauses HX1–HX5: each of the eight Index/IndexMut impls guards its inline-array access by exactly the comparison the byte slice's own bound check makes (bounds table), with the other edge panicking; eq/print/to_vec/byte_at/tail/to_i64/to_f64/to_utf8/is_empty/to_bool/Debug/Display never look at the representation, only at bytes()/len()/print(); bytes() is the array cut to exactly the length field and len() the stored length; numeric conversions use the big-endian pair through a whole-bytes [u8; 8] conversion with the error propagated; from_slice picks the inline form only if len ≤ 8 (a lower threshold is a pure representation choice), copies exactly slice.len() bytes and records slice.len(). Does not decide from_str(print(h)) == h (value round trip through the hex crate). HX6: Display and Debug of Hex write exactly print(). HX7: tail(skip) is built from bytes()[skip..] on every path (so it panics where the slice does), the empty value being returned only where skip == len.",
         "note": "Trusted: rustc front end + engine; std slice/array indexing semantics (the bounds table is derived from them); hex crate. The text round trip is not decided.",
         "technique": "MIR sibling-agreement (bounds table) + representation-encapsulation + provenance rules",
-        "rules": [("HX1", H.hx1), ("HX2", H.hx2), ("HX3", H.hx3), ("HX4", H.hx4), ("HX5", H.hx5), ("HX6", H.hx6)],
+        "rules": [("HX1", H.hx1), ("HX2", H.hx2), ("HX3", H.hx3), ("HX4", H.hx4), ("HX5", H.hx5), ("HX6", H.hx6), ("HX7", H.hx7)],
         "explanation": "HX1 bounds table over 8 Index impls, HX2 representation encapsulation (12 accessors + PartialEq), HX3 bytes()/len(), HX4 endianness pair and whole-bytes conversion, HX5 from_slice/from_vec.",
         "trusted": [RUSTC],
         "assumptions": [],
     },
     "C16": {
-        "claim": "HX3 (the byte view concat() reads its operands through is the array cut at its length / the heap vector, and is total) is run as a premise. Decides CC1–CC3 completely for concat(): no byte source appended to the result is a whole inline array (sources are bytes() views, the heap vector, or the array cut at its length field); the heap result is left bytes then right bytes exactly once each with no other conditional change of the vector; the inline result is built only under the tested fact l + len(h) ≤ 8, records l + len(h) and has the right bytes placed from index l of a copy of the left array; both operands are shared references to a type without interior mutability in a module without unsafe code.",
+        "claim": "HX3 (the byte view concat() reads its operands through is the array cut at its length / the heap vector, and is total) and HX2 (equality of two values looks at their bytes only: the result of concat() equals the same bytes built any other way) are run as premises. Decides CC1–CC3 completely for concat(): no byte source appended to the result is a whole inline array (sources are bytes() views, the heap vector, or the array cut at its length field); the heap result is left bytes then right bytes exactly once each with no other conditional change of the vector; the inline result is built only under the tested fact l + len(h) ≤ 8, records l + len(h) and has the right bytes placed from index l of a copy of the left array; both operands are shared references to a type without interior mutability in a module without unsafe code.",
         "note": "Trusted: rustc front end + engine; Vec::extend_from_slice / copy_from_slice semantics. Known finding F6 (inline-to-heap spill copies the whole array) is listed in known_findings.json because the existing test concatenates_from_hex_vec asserts the defective length.",
         "technique": "MIR provenance of appended byte sources + ordering by dominance",
-        "rules": [("CC1", H.cc1), ("CC2", H.cc2), ("CC3", H.cc3), ("HX3", H.hx3)],
+        "rules": [("CC1", H.cc1), ("CC2", H.cc2), ("CC3", H.cc3), ("HX3", H.hx3), ("HX2", H.hx2)],
         "explanation": "CC1 provenance of every appended byte source, CC2 order and recorded length, CC3 operands unchanged.",
         "trusted": [RUSTC],
         "assumptions": [],
@@ -155,11 +155,11 @@ PROPS = {
         "assumptions": ["debug-assertion builds"],
     },
     "C03": {
-        "claim": "Decides all structural clauses RW1–RW7 + GC7b + GC8: bind(v1,v2,a) performs edges(v1).insert(a,v2) unconditionally with exactly its parameters; kid(v,a) returns the target of an edge of v only under label equality with a, None only after all edges were compared; kids(v) is the unfiltered iterator of v's edge map; put stores d.clone() unconditionally; data returns a copy of the stored datum in both the Stored and the Taken arm and None exactly in the Empty arm; edges/data/read status of graph vertices are written only by bind/put/data/add and only on vertices named by an id parameter; Label's Eq/Hash/Ord are derived; a recycled id is blanked and add() leaves a present vertex untouched (GC7, both parts); GC4 (counter pairing) is run as a premise — a counter that was not incremented makes the read of a present vertex stop in the decrement instead of returning the bytes. Value equality of bytes is delegated to the derived Clone of Hex and micromap's replace-in-place insert (trusted). MG3-6 (what merge() binds and stores on an existing vertex comes from the right vertex it is mapped to) are run as premises: a merge is a call on other vertices too.",
+        "claim": "Decides all structural clauses RW1–RW7 + GC7b + GC8: bind(v1,v2,a) performs edges(v1).insert(a,v2) unconditionally with exactly its parameters; kid(v,a) returns the target of an edge of v only under label equality with a, None only after all edges were compared; kids(v) is the unfiltered iterator of v's edge map; put stores d.clone() unconditionally; data returns a copy of the stored datum in both the Stored and the Taken arm and None exactly in the Empty arm; edges/data/read status of graph vertices are written only by bind/put/data/add and only on vertices named by an id parameter; Label's Eq/Hash/Ord are derived; a recycled id is blanked and add() leaves a present vertex untouched (GC7, both parts); GC4 (counter pairing) is run as a premise — a counter that was not incremented makes the read of a present vertex stop in the decrement instead of returning the bytes. Value equality of bytes is delegated to the derived Clone of Hex and micromap's replace-in-place insert (trusted). GC5 (a vertex that joins a group is entered in its member list: otherwise it outlives the group, and a re-added id is not blank) and MG3-6 (what merge() binds and stores on an existing vertex comes from the right vertex it is mapped to) are run as premises: a merge is a call on other vertices too.",
         "note": "Trusted: rustc front end + engine; micromap::Map::insert replaces the value of an equal key in place; derived Clone of Hex copies the bytes.",
         "technique": "MIR provenance + guard + who-may-write (frame) rules",
         "rules": [("RW1", RW.rw1), ("RW2", RW.rw2), ("RW3", RW.rw3), ("RW4/RW5", RW.rw45), ("RW6", RW.rw6), ("RW7", LB.lb7),
-                  ("GC7", functools.partial(G.gc7, part="ab")), ("GC8", G.gc8), ("GC4", G.gc4), ("MG3-6", MG.mg3456)],
+                  ("GC7", functools.partial(G.gc7, part="ab")), ("GC8", G.gc8), ("GC4", G.gc4), ("GC5", G.gc5), ("MG3-6", MG.mg3456)],
         "explanation": "RW1 bind's insert, RW2 kid, RW3 kids, RW4 put, RW5 data's three arms, RW6 who-may-write, RW7 derived Label traits, GC7b blanking, GC8 frame.",
         "trusted": [RUSTC, CONTAINERS],
         "assumptions": ["capacity limits and documented preconditions"],
@@ -183,7 +183,7 @@ PROPS = {
                   # the completeness count relies on add() handing out blank vertices (a re-added id with stale edges inflates the map)
                   ("GC7", functools.partial(G.gc7, part="ab")),
                   # ... and on keys()/len() of the right graph counting exactly its present vertices
-                  ("XP1", L.xp1)],
+                  ("XP1", functools.partial(L.xp1, only=("Sodg::keys",)))],
         "explanation": "MG7 Ok guarded by ?-success ∧ |mapped| == |right|, MG8 Err names the difference, sorted.",
         "trusted": [RUSTC],
         "assumptions": [],
@@ -201,10 +201,10 @@ PROPS = {
         "assumptions": ["everything reachable from v is present and numbers at most 14 vertices"],
     },
     "C19": {
-        "claim": "Decides ND1–ND3, which remove every source of run-to-run or size dependence: values produced by iterating a std hash container, and loop bodies driven by them, reach only order-insensitive uses (set/map insert, contains, len, reads, the user predicate) unless sorted first — never a graph mutator, next_id or an unsorted returned sequence/string; time/random/environment sources feed logging only and no pointer is turned into a number; the const parameter N never occurs as a value and capacity() flows only into Sodg::empty, a diverging bound check or logging. Does not decide equality of whole traces across configurations as such. SZ3-5 (save/load use bincode's default configuration on the whole image: no size limit that a larger capacity would exceed) and NX2 (next_id() tries every id up to the last slot, so whether it finds one depends on the capacity only through exhaustion) are run as premises.",
+        "claim": "Decides ND1–ND3, which remove every source of run-to-run or size dependence: values produced by iterating a std hash container, and loop bodies driven by them, reach only order-insensitive uses (set/map insert, contains, len, reads, the user predicate) unless sorted first — never a graph mutator, next_id or an unsorted returned sequence/string; time/random/environment sources feed logging only and no pointer is turned into a number; the const parameter N never occurs as a value and capacity() flows only into Sodg::empty, a diverging bound check or logging. Does not decide equality of whole traces across configurations as such. SZ3-5 (save/load use bincode's default configuration on the whole image: no size limit that a larger capacity would exceed) and NX2 (next_id() tries every id up to the last slot, so whether it finds one depends on the capacity only through exhaustion) and LM (the group tables and member lists have the fixed documented sizes, not sizes taken from N) are run as premises.",
         "note": "Trusted: rustc front end + engine; micromap iteration is insertion-ordered and emap iteration ascending (deterministic), as read.",
         "technique": "MIR taint analysis (hash-iteration order, time, size parameters) with sort as sanitiser",
-        "rules": [("ND1", SL.nd1), ("ND2", SL.nd2), ("ND3", SL.nd3), ("SZ3-5", functools.partial(SZ.sz345, roundtrip=False)), ("NX2/NX3", NX.nx23)],
+        "rules": [("ND1", SL.nd1), ("ND2", SL.nd2), ("ND3", SL.nd3), ("SZ3-5", functools.partial(SZ.sz345, roundtrip=False)), ("NX2/NX3", NX.nx23), ("LM", G.limits)],
         "explanation": "ND1 hash-order taint (floor 3 sources), ND2 other nondeterminism sources, ND3 N / capacity only as bounds.",
         "trusted": [RUSTC, CONTAINERS],
         "assumptions": ["sequences that fit within the limits of both configurations"],
